@@ -14,7 +14,7 @@
 From RB Require Import Base.Prelude Sig.Types Sig.Parser Sig.ParserProofs Sig.Validator Sig.ValidatorProofs Sig.Iter
   Wire.Value Wire.SpecEnc Wire.Marshal Wire.Decode Wire.Unmarshal Wire.Relabel Wire.Ops Wire.DecodeSoundLemmas Wire.DecodeTotal
   Wire.HasSig Wire.HasSigProofs Wire.Body Wire.ParserTotal Wire.Bytes Wire.Align Wire.Derive Wire.Enums Wire.EnumsTotal
-  Wire.Limits Wire.LimitsProofs Wire.LimitsBounds Wire.Steps Wire.StepsProofs Wire.StepsParam Wire.StepsParamProofs.
+  Wire.Limits Wire.LimitsProofs Wire.LimitsBounds Wire.Steps Wire.StepsProofs Wire.StepsParam Wire.StepsParamProofs Wire.StepsTyped Wire.StepsTypedProofs.
 
 (* raw validation: any bytes, any offset inside the buffer, any (well-formed) type, both byte orders *)
 Theorem C04_total_validate : forall be off buf t, wf t = true -> off <= len buf ->
@@ -181,3 +181,23 @@ Theorem C04_steps_param_depth : forall be vf t c,
         snd (unmarshal_ps vf be t c) <= step_weight (udepth c) * (uoff c' - uoff c) /\ uoff c < uoff c' <= len (ubuf c)).
 Proof. exact unmarshal_ps_bound. Qed.
 Print Assumptions C04_steps_param_depth.
+
+(* steps of the typed decoder, EVERY outcome. [unmarshal_ts] (Wire/StepsTyped.v) is [unmarshal_t] clause by clause with the same
+   counter (1 per call of T::unmarshal, 1 per loop / field round, 1 per dict key call) plus every step of the raw validator that
+   the Variant arm runs before it decodes the same bytes; its first component is the uninstrumented model at every fuel: *)
+Theorem C04_steps_typed_proj : forall be vf e c, fst (unmarshal_ts vf be e c) = unmarshal_t vf be e c.
+Proof. exact unmarshal_ts_proj. Qed.
+Print Assumptions C04_steps_typed_proj.
+
+(* hypotheses of C04_total_typed. This decoder has no nesting limit of its own outside variants, so the weight of a byte is a
+   function of the Rust type: tweight e = 1 for a base type, + 2 for every array / dict / struct level around it, + 129 for
+   every Variant<..> level (max over struct fields); at most 2 * edepth e + 127 * evars e + 1. At most tweight e steps per byte
+   left in the buffer plus tweight e however the run ends; at most tweight e steps per byte consumed when a value is returned.
+   Reached exactly for variant-free types (Wire/StepsExamples.v: sx_t_tight). *)
+Theorem C04_steps_typed_bound : forall be e c, ewf e = true -> uoff c <= len (ubuf c) -> (evars e <= 65)%nat ->
+  snd (unmarshal_ts 66 be e c) <= tweight e * (len (ubuf c) - uoff c) + tweight e
+  /\ (forall v c', fst (unmarshal_ts 66 be e c) = Ok (v, c') ->
+        snd (unmarshal_ts 66 be e c) <= tweight e * (uoff c' - uoff c) /\ uoff c < uoff c' <= len (ubuf c))
+  /\ tweight e <= 2 * edepth e + 127 * N.of_nat (evars e) + 1 <= 2 * edepth e + 8256.
+Proof. exact unmarshal_ts_66_bound. Qed.
+Print Assumptions C04_steps_typed_bound.
